@@ -25,6 +25,7 @@ use std::time::{Duration, Instant};
 type Row = Vec<(String, String)>;
 static PANICKED: AtomicBool = AtomicBool::new(false);
 
+#[derive(Clone)]
 struct Ev {
     stream: String,
     /// the string handed to add_to_stream (the stream IRI in one of its accepted spellings)
@@ -127,6 +128,27 @@ fn rows_json(rows: Vec<Row>) -> Value {
     let mut rs = rows;
     rs.sort();
     json!(rs)
+}
+
+/// set once a run did not come back within its deadline: its thread and engine are left behind, the hook counters
+/// are no longer reliable, so the remaining cases of this process are not run
+static ABORTED: AtomicBool = AtomicBool::new(false);
+
+/// Run `f` on its own thread and wait for it at most `ms` milliseconds, so that a (mutated) engine that blocks the
+/// calling thread cannot hang the driver: on expiry every hold is released, None is returned, the thread is left behind.
+fn with_deadline<T: Send + 'static>(ms: u64, f: impl FnOnce() -> T + Send + 'static) -> Option<T> {
+    let (tx, rx) = std::sync::mpsc::channel();
+    std::thread::spawn(move || {
+        let _ = tx.send(f());
+    });
+    match rx.recv_timeout(Duration::from_millis(ms)) {
+        Ok(v) => Some(v),
+        Err(_) => {
+            verif_hooks::hold_sites(0);
+            ABORTED.store(true, Ordering::SeqCst);
+            None
+        }
+    }
 }
 
 /// (solutions per call, number of window contents the engine's own windows handed to the processors per call)
@@ -287,10 +309,17 @@ fn main() {
         let evs = events(case);
         let wins = windows(case);
         let pr = probe(&wins, &evs, stop);
-        let (st, st_fired) = match vharness::catch(std::panic::AssertUnwindSafe(|| run_single(case, &evs, stop))) {
-            Ok(Ok(v)) => v,
-            Ok(Err(e)) => return json!({"build_error": e}),
-            Err(m) => return json!({"panic": m, "where": "single-thread"}),
+        if ABORTED.load(Ordering::SeqCst) {
+            return json!({"blocked": true, "where": "not run: an earlier run of this driver process did not come back"});
+        }
+        let run_deadline_ms = 2 * timeout_ms;
+        let nwin = wins.len();
+        let (c1, e1) = (case.clone(), evs.clone());
+        let (st, st_fired) = match with_deadline(run_deadline_ms, move || vharness::catch(std::panic::AssertUnwindSafe(|| run_single(&c1, &e1, stop)))) {
+            Some(Ok(Ok(v))) => v,
+            Some(Ok(Err(e))) => return json!({"build_error": e}),
+            Some(Err(m)) => return json!({"panic": m, "where": "single-thread"}),
+            None => return json!({"blocked": true, "where": "single-thread run did not come back within the deadline"}),
         };
         PANICKED.store(false, Ordering::SeqCst);
         let calls: Vec<Value> = pr
@@ -302,10 +331,14 @@ fn main() {
         let mut mt: Vec<Value> = Vec::new();
         for sd in case["seeds"].as_array().cloned().unwrap_or_default() {
             let seed = sd.as_u64().unwrap();
-            match vharness::catch(std::panic::AssertUnwindSafe(|| run_multi(case, &evs, stop, wins.len(), seed, timeout_ms))) {
-                Ok(Ok(v)) => mt.push(v),
-                Ok(Err(e)) => return json!({"build_error": e}),
-                Err(m) => return json!({"panic": m, "where": "multi-thread"}),
+            let (c1, e1) = (case.clone(), evs.clone());
+            match with_deadline(run_deadline_ms, move || {
+                vharness::catch(std::panic::AssertUnwindSafe(|| run_multi(&c1, &e1, stop, nwin, seed, timeout_ms)))
+            }) {
+                Some(Ok(Ok(v))) => mt.push(v),
+                Some(Ok(Err(e))) => return json!({"build_error": e}),
+                Some(Err(m)) => return json!({"panic": m, "where": "multi-thread"}),
+                None => return json!({"blocked": true, "where": format!("multi-thread run (seed {}) did not come back within the deadline", seed)}),
             }
         }
         // lockstep waits for as many firings as the probe windows report; it is only meaningful (and only terminates)
@@ -314,10 +347,14 @@ fn main() {
         let lock = if !same_firings {
             json!({"skipped": "the engine's windows do not fire where the probe windows fire"})
         } else if case["lockstep"].as_bool().unwrap_or(false) {
-            match vharness::catch(std::panic::AssertUnwindSafe(|| run_lockstep(case, &evs, &pr, wins.len(), timeout_ms))) {
-                Ok(Ok(v)) => v,
-                Ok(Err(e)) => return json!({"build_error": e}),
-                Err(m) => return json!({"panic": m, "where": "multi-thread lockstep"}),
+            let (c1, e1, p1) = (case.clone(), evs.clone(), pr.clone());
+            match with_deadline(run_deadline_ms + timeout_ms, move || {
+                vharness::catch(std::panic::AssertUnwindSafe(|| run_lockstep(&c1, &e1, &p1, nwin, timeout_ms)))
+            }) {
+                Some(Ok(Ok(v))) => v,
+                Some(Ok(Err(e))) => return json!({"build_error": e}),
+                Some(Err(m)) => return json!({"panic": m, "where": "multi-thread lockstep"}),
+                None => return json!({"blocked": true, "where": "multi-thread lockstep run did not come back within the deadline"}),
             }
         } else {
             Value::Null
